@@ -5,12 +5,22 @@
 // (verif/ref/cronref): the earliest whole second strictly after t whose wall
 // clock reading in the schedule's zone satisfies the expression, or the zero
 // time beyond the five-year horizon.
+//
+// kit's Next is run in worker processes (this same test binary re-executed
+// with VERIF_C04_WORKER=1): a call that does not return cannot be abandoned
+// inside a Go process, so a worker that sees one reports it and exits, and the
+// driver carries on with a fresh worker.
 package next
 
 import (
+	"bufio"
 	"crypto/sha256"
 	"encoding/json"
 	"fmt"
+	"io"
+	"os"
+	"os/exec"
+	"runtime"
 	"sort"
 	"strings"
 	"sync"
@@ -25,7 +35,13 @@ import (
 	"verif/ref/cronref"
 )
 
-func TestCheck(t *testing.T) { enumx.Main(t, "C04", "next", run) }
+func TestCheck(t *testing.T) {
+	if os.Getenv("VERIF_C04_WORKER") != "" {
+		workerMain()
+		return
+	}
+	enumx.Main(t, "C04", "next", run)
+}
 
 // ---- the explored space ---------------------------------------------------
 
@@ -74,6 +90,7 @@ var (
 		{"*"},
 		{"*", "0", "1-5"},
 	}
+	rareSchedules = []string{"0 0 0 30 2 *", "0 0 0 31 2,4,6,9,11 ?", "0 0 0 29 2 *", "0 0 12 29 2 0", "* * * 31 4 *", "0 0 0 29 2 6"}
 )
 
 func (m menus) size() int {
@@ -121,13 +138,21 @@ var (
 	windowStep   = 7 * time.Minute
 )
 
+// group: start instants that belong together; after a call that does not
+// return, the rest of the group before pivot (the transition) is not tried,
+// and after a second one the rest of the group.
+type group struct {
+	pivot  time.Time
+	starts []time.Time
+}
+
 type zoneInfo struct {
-	name          string
-	fixed         bool
-	z             *cronref.Zone
-	grid          []time.Time // thorough grid; quick uses every 4th
-	wins          []time.Time
-	nTransWindows int
+	name  string
+	fixed bool
+	z     *cronref.Zone
+	grid  []time.Time
+	wins  []group
+	nWin  int
 }
 
 func loadZone(name string) (*zoneInfo, error) {
@@ -147,36 +172,29 @@ func loadZone(name string) (*zoneInfo, error) {
 		return nil, err
 	}
 	zi.z = z
-	for i, t := 0, gridFrom; t.Before(gridTo); i, t = i+1, t.Add(gridStep) {
+	for t := gridFrom; t.Before(gridTo); t = t.Add(gridStep) {
 		zi.grid = append(zi.grid, t)
-	}
-	seen := map[int64]bool{}
-	add := func(t time.Time) {
-		k := t.UnixNano()
-		if !seen[k] {
-			seen[k] = true
-			zi.wins = append(zi.wins, t)
-		}
 	}
 	for _, tr := range z.Transitions {
 		if tr < windowsFrom || tr >= windowsTo {
 			continue
 		}
-		zi.nTransWindows++
 		T := time.Unix(tr, 0).UTC()
+		g := group{pivot: T}
 		k := 0
 		for d := -windowBefore; d <= windowAfter; d += windowStep {
 			t := T.Add(d)
 			if k%2 == 1 {
 				t = t.Add(500 * time.Millisecond) // sub-second start: Next works from the floor
 			}
-			add(t)
+			g.starts = append(g.starts, t)
 			k++
 		}
-		add(T.Add(-time.Second))
-		add(T)
+		g.starts = append(g.starts, T.Add(-time.Second), T)
+		sort.Slice(g.starts, func(i, j int) bool { return g.starts[i].Before(g.starts[j]) })
+		zi.wins = append(zi.wins, g)
+		zi.nWin += len(g.starts)
 	}
-	sort.Slice(zi.wins, func(i, j int) bool { return zi.wins[i].Before(zi.wins[j]) })
 	return zi, nil
 }
 
@@ -219,27 +237,55 @@ type rcase struct {
 }
 
 type mismatch struct {
-	key, msg string
-	c        rcase
+	Key  string `json:"key"`
+	Msg  string `json:"msg"`
+	C    rcase  `json:"case"`
+	N    int64  `json:"n"`
+	Hung int64  `json:"hung"`
 }
 
-// eval compares one start instant; plain=true uses a memory-less reference scan.
+// watch: what the worker's watchdog needs to know about the call in flight.
+type watch struct {
+	busySince atomic.Int64 // mono() when kit's Next was entered; 0 = not inside
+	p         *pair
+	t         time.Time
+	ans       cronref.Answer
+}
+
+var inFlight watch
+
+var monoBase = time.Now()
+
+// mono: monotonic nanoseconds since process start (never 0).
+func mono() int64 { return int64(time.Since(monoBase)) + 1 }
+
+// eval compares one start instant; plain=true uses the memory-less Plain-mode
+// reference (the definition) instead of the continuing Fast-mode scan.
 func (p *pair) eval(t time.Time, plain bool) (mm *mismatch, nontrivial bool) {
 	loc := p.zi.z.Loc
 	if p.zi.fixed {
 		t = t.In(loc)
 	}
-	got := p.kit.Next(t)
 	var ans cronref.Answer
 	if plain {
 		ans = cronref.Next(p.zi.z, &p.ref, t)
 	} else {
 		ans = p.sc.Next(t)
 	}
+	inFlight.p, inFlight.t, inFlight.ans = p, t, ans
+	inFlight.busySince.Store(mono())
+	got := p.kit.Next(t)
+	inFlight.busySince.Store(0)
 	nontrivial = !ans.Found || ans.Unix != t.Unix()+1
+	return p.judge(t, ans, got, false), nontrivial
+}
+
+func (p *pair) judge(t time.Time, ans cronref.Answer, got time.Time, hung bool) *mismatch {
+	loc := p.zi.z.Loc
 	gotZero := got.IsZero()
 	ok := false
 	switch {
+	case hung:
 	case !ans.Found:
 		ok = gotZero
 	default:
@@ -253,7 +299,7 @@ func (p *pair) eval(t time.Time, plain bool) (mm *mismatch, nontrivial bool) {
 		}
 	}
 	if ok {
-		return nil, nontrivial
+		return nil
 	}
 	// identity of the finding: the offset change nearest to where the two
 	// answers part (the earlier of them), else nearest to the start.
@@ -262,7 +308,7 @@ func (p *pair) eval(t time.Time, plain bool) (mm *mismatch, nontrivial bool) {
 	if ans.Found {
 		e = ans.Unix
 	}
-	if !gotZero && (e == 0 || got.Unix() < e) {
+	if !hung && !gotZero && (e == 0 || got.Unix() < e) {
 		e = got.Unix()
 	}
 	key := ""
@@ -279,6 +325,11 @@ func (p *pair) eval(t time.Time, plain bool) (mm *mismatch, nontrivial bool) {
 		}
 		return time.Unix(u, 0).In(loc).Format("2006-01-02T15:04:05Z07:00 Mon")
 	}
+	head := fmt.Sprintf("spec %q zone %s: Next(%s = %s local)", p.spec, p.zi.name, t.UTC().Format(time.RFC3339Nano), t.In(loc).Format("2006-01-02T15:04:05.999Z07:00"))
+	c := rcase{p.zi.name, p.spec, t.Unix(), t.Nanosecond()}
+	if hung {
+		return &mismatch{Key: key, Msg: fmt.Sprintf("%s did not return (no answer within the time limit; the search loop does not terminate); earliest match: %s", head, f(ans.Unix, !ans.Found)), C: c, N: 1, Hung: 1}
+	}
 	what := "is later than the earliest matching second (a matching instant is skipped)"
 	if !gotZero && !p.ref.Matches(got.In(loc)) {
 		what = "does not satisfy the expression on the zone's wall clock"
@@ -289,19 +340,7 @@ func (p *pair) eval(t time.Time, plain bool) (mm *mismatch, nontrivial bool) {
 	} else if !gotZero && got.Nanosecond() != 0 {
 		what = "is not a whole second"
 	}
-	msg := fmt.Sprintf("spec %q zone %s: Next(%s = %s local) = %s, which %s; earliest match: %s", p.spec, p.zi.name, t.UTC().Format(time.RFC3339Nano), t.In(loc).Format("2006-01-02T15:04:05.999Z07:00"), f(got.Unix(), gotZero), what, f(ans.Unix, !ans.Found))
-	return &mismatch{key: key, msg: msg, c: rcase{p.zi.name, p.spec, t.Unix(), t.Nanosecond()}}, nontrivial
-}
-
-// ---- deterministic aggregation of findings ------------------------------------
-
-type agg struct {
-	mu sync.Mutex
-	m  map[string]*aggEntry
-}
-type aggEntry struct {
-	n  int64
-	ex *mismatch
+	return &mismatch{Key: key, Msg: fmt.Sprintf("%s = %s, which %s; earliest match: %s", head, f(got.Unix(), gotZero), what, f(ans.Unix, !ans.Found)), C: c, N: 1}
 }
 
 func less(a, b rcase) bool {
@@ -317,17 +356,414 @@ func less(a, b rcase) bool {
 	return a.Nanos < b.Nanos
 }
 
-func (a *agg) add(m *mismatch) {
-	a.mu.Lock()
-	e := a.m[m.key]
+// merge keeps, per key, the counts and the first example by (spec, start).
+func merge(m map[string]*mismatch, x *mismatch) {
+	e := m[x.Key]
 	if e == nil {
-		e = &aggEntry{ex: m}
-		a.m[m.key] = e
-	} else if less(m.c, e.ex.c) {
-		e.ex = m
+		c := *x
+		m[x.Key] = &c
+		return
 	}
-	e.n++
-	a.mu.Unlock()
+	e.N += x.N
+	e.Hung += x.Hung
+	if less(x.C, e.C) {
+		e.Msg, e.C = x.Msg, x.C
+	}
+}
+
+// ---- worker protocol ----------------------------------------------------------
+
+type unitReq struct {
+	ID      int    `json:"id"`
+	Zone    string `json:"zone"`
+	Spec    string `json:"spec"`
+	Kind    string `json:"kind"` // grid | win | single | every
+	Mod     int    `json:"mod"`  // grid: indices with index%Mod==Rem
+	Rem     int    `json:"rem"`
+	FromG   int    `json:"from_g"` // resume position
+	FromI   int    `json:"from_i"`
+	Unix    int64  `json:"unix"` // single
+	Nanos   int    `json:"nanos"`
+	LimitMs int    `json:"limit_ms"`
+}
+
+type unitResp struct {
+	ID         int         `json:"id"`
+	N          int64       `json:"n"`
+	NT         int64       `json:"nt"`
+	Probes     int64       `json:"probes"`
+	SelfChecks int64       `json:"self_checks"`
+	Skipped    int64       `json:"skipped"`
+	Mis        []*mismatch `json:"mis"`
+	Hung       bool        `json:"hung"`
+	HungCase   *mismatch   `json:"hung_case"`
+	NextG      int         `json:"next_g"` // where to resume behind a call that did not return
+	NextI      int         `json:"next_i"`
+	CurG       int         `json:"cur_g"` // position of that call
+	CurI       int         `json:"cur_i"`
+}
+
+func groupsFor(zi *zoneInfo, q *unitReq) []group {
+	switch q.Kind {
+	case "grid":
+		var gs []group
+		for i, t := range zi.grid {
+			if i%q.Mod == q.Rem {
+				gs = append(gs, group{starts: []time.Time{t}})
+			}
+		}
+		return gs
+	case "win":
+		return zi.wins
+	case "single":
+		return []group{{starts: []time.Time{time.Unix(q.Unix, int64(q.Nanos)).UTC()}}}
+	}
+	panic("kind " + q.Kind)
+}
+
+// workerMain: read unit requests from stdin, answer on stdout. If kit's Next
+// does not return within the limit, answer with what was done so far and exit.
+func workerMain() {
+	in := bufio.NewReaderSize(os.Stdin, 1<<16)
+	out := bufio.NewWriter(os.Stdout)
+	zones := map[string]*zoneInfo{}
+	var mu sync.Mutex // guards cur* against the watchdog
+	var cur *unitResp
+	var curMis map[string]*mismatch
+	var curGroups []group
+	var curG, curI int
+	var limit atomic.Int64
+	limit.Store(int64(2 * time.Second))
+	evals := 0 // across units: every 2003rd evaluation is self-checked
+	flush := func(r *unitResp, mis map[string]*mismatch) {
+		keys := make([]string, 0, len(mis))
+		for k := range mis {
+			keys = append(keys, k)
+		}
+		sort.Strings(keys)
+		for _, k := range keys {
+			r.Mis = append(r.Mis, mis[k])
+		}
+		b, _ := json.Marshal(r)
+		out.Write(b)
+		out.WriteByte('\n')
+		out.Flush()
+	}
+	go func() {
+		for {
+			time.Sleep(50 * time.Millisecond)
+			since := inFlight.busySince.Load()
+			if since == 0 || mono()-since < limit.Load() {
+				continue
+			}
+			// the evaluating goroutine is stuck inside kit's Next: nothing below is written concurrently
+			mu.Lock()
+			p, t, ans := inFlight.p, inFlight.t, inFlight.ans
+			h := p.judge(t, ans, time.Time{}, true)
+			cur.Hung, cur.HungCase = true, h
+			cur.CurG, cur.CurI = curG, curI
+			// where to resume: behind the pivot of this group, else the next group
+			g := curGroups[curG]
+			ng, ni := curG+1, 0
+			if !g.pivot.IsZero() && t.Before(g.pivot) {
+				for j := curI + 1; j < len(g.starts); j++ {
+					if !g.starts[j].Before(g.pivot) {
+						ng, ni = curG, j
+						break
+					}
+				}
+			}
+			if ng == curG {
+				cur.Skipped = int64(ni - curI - 1)
+			} else {
+				cur.Skipped = int64(len(g.starts) - curI - 1)
+			}
+			cur.NextG, cur.NextI = ng, ni
+			cur.Probes = p.sc.Probes
+			flush(cur, curMis)
+			os.Exit(0)
+		}
+	}()
+	for {
+		line, err := in.ReadBytes('\n')
+		if err != nil {
+			return
+		}
+		var q unitReq
+		if err := json.Unmarshal(line, &q); err != nil {
+			panic(err)
+		}
+		if q.LimitMs > 0 {
+			limit.Store(int64(q.LimitMs) * int64(time.Millisecond))
+		}
+		resp := &unitResp{ID: q.ID}
+		mis := map[string]*mismatch{}
+		if q.Kind == "every" {
+			evalEveryUnit(&q, resp, mis)
+			flush(resp, mis)
+			continue
+		}
+		zi := zones[q.Zone]
+		if zi == nil {
+			if zi, err = loadZone(q.Zone); err != nil {
+				panic(err)
+			}
+			zones[q.Zone] = zi
+		}
+		p, err := newPair(zi, q.Spec)
+		if err != nil {
+			panic(err)
+		}
+		groups := groupsFor(zi, &q)
+		mu.Lock()
+		cur, curMis, curGroups = resp, mis, groups
+		mu.Unlock()
+		for g := q.FromG; g < len(groups); g++ {
+			i0 := 0
+			if g == q.FromG {
+				i0 = q.FromI
+			}
+			for i := i0; i < len(groups[g].starts); i++ {
+				t := groups[g].starts[i]
+				mu.Lock()
+				curG, curI = g, i
+				mu.Unlock()
+				m, nontriv := p.eval(t, q.Kind == "single")
+				mu.Lock()
+				resp.N++
+				if nontriv {
+					resp.NT++
+				}
+				if m != nil {
+					merge(mis, m)
+				}
+				mu.Unlock()
+				if evals%2003 == 0 && q.Kind != "single" {
+					// machinery self-check: the continuing Fast scan equals the memory-less Plain one
+					plain := cronref.Next(zi.z, &p.ref, inFlight.t)
+					if plain != inFlight.ans {
+						panic(fmt.Sprintf("reference self-check failed for %q in %s at %v: fast %v plain %v", q.Spec, zi.name, t, inFlight.ans, plain))
+					}
+					resp.SelfChecks++
+				}
+				evals++
+			}
+		}
+		mu.Lock()
+		resp.Probes = p.sc.Probes
+		resp.NextG = len(groups)
+		flush(resp, mis)
+		cur = nil
+		mu.Unlock()
+	}
+}
+
+var everyDurations = []string{"1s", "2s", "59s", "1m", "90m", "1h30m10s", "24h", "8760h", "1.5s", "2h45m30.9s", "999ms", "500ms", "1ns", "0s", "-5s"}
+
+func evalEveryUnit(q *unitReq, resp *unitResp, mis map[string]*mismatch) {
+	if q.Unix != 0 {
+		if m := evalEvery(q.Spec, time.Unix(q.Unix, int64(q.Nanos)).UTC()); m != nil {
+			merge(mis, m)
+		}
+		resp.N, resp.NT = 1, 1
+		return
+	}
+	zi, err := loadZoneLight(q.Zone)
+	if err != nil {
+		panic(err)
+	}
+	for g := 0; ; g++ {
+		t := gridFrom.Add(time.Duration(g) * gridStep)
+		if !t.Before(gridTo) {
+			break
+		}
+		if g%q.Mod != q.Rem {
+			continue
+		}
+		for _, d := range everyDurations {
+			for _, ns := range []int{0, 1, 499999999, 999999999} {
+				tt := t.Truncate(time.Second).Add(time.Duration(ns)).In(zi)
+				resp.N++
+				resp.NT++
+				if m := evalEvery(d, tt); m != nil {
+					merge(mis, m)
+				}
+			}
+		}
+	}
+}
+
+func loadZoneLight(name string) (*time.Location, error) {
+	if name == "+05:30" {
+		return time.FixedZone("+05:30", 5*3600+1800), nil
+	}
+	return time.LoadLocation(name)
+}
+
+func evalEvery(d string, t time.Time) *mismatch {
+	c := rcase{t.Location().String(), "@every " + d, t.Unix(), t.Nanosecond()}
+	k, err := secondsParser.Parse("@every " + d)
+	if err != nil {
+		return &mismatch{Key: "every;d=" + d, Msg: fmt.Sprintf("@every %s refused: %v", d, err), C: c, N: 1}
+	}
+	dur, _ := time.ParseDuration(d)
+	want := cronref.EveryNext(cronref.EveryDelay(dur), t)
+	got := k.Next(t)
+	if got.Equal(want) {
+		return nil
+	}
+	return &mismatch{Key: "every;d=" + d, Msg: fmt.Sprintf("@every %s: Next(%s) = %s, documented: t truncated to the second + %v = %s", d, t.Format(time.RFC3339Nano), got.Format(time.RFC3339Nano), cronref.EveryDelay(dur), want.Format(time.RFC3339Nano)), C: c, N: 1}
+}
+
+// ---- driver side -------------------------------------------------------------
+
+type worker struct {
+	cmd *exec.Cmd
+	in  io.WriteCloser
+	out *bufio.Reader
+}
+
+func startWorker() *worker {
+	cmd := exec.Command(os.Args[0], "-test.run", "^TestCheck$", "-test.timeout", "0")
+	cmd.Env = append(os.Environ(), "VERIF_C04_WORKER=1", "GOMAXPROCS=2")
+	cmd.Stderr = os.Stderr
+	in, err := cmd.StdinPipe()
+	if err != nil {
+		panic(err)
+	}
+	o, err := cmd.StdoutPipe()
+	if err != nil {
+		panic(err)
+	}
+	if err := cmd.Start(); err != nil {
+		panic(err)
+	}
+	return &worker{cmd: cmd, in: in, out: bufio.NewReaderSize(o, 1<<16)}
+}
+
+func (w *worker) stop() {
+	w.in.Close()
+	w.cmd.Wait()
+}
+
+// do sends one request and reads the answer. A worker that reported a hang has
+// exited; the caller must start a new one.
+func (w *worker) do(q *unitReq) *unitResp {
+	b, _ := json.Marshal(q)
+	if _, err := w.in.Write(append(b, '\n')); err != nil {
+		panic(fmt.Sprintf("worker write: %v", err))
+	}
+	for {
+		line, err := w.out.ReadBytes('\n')
+		if err != nil {
+			w.cmd.Wait()
+			panic(fmt.Sprintf("worker died while evaluating %+v: %v", *q, err))
+		}
+		if len(line) == 0 || line[0] != '{' {
+			continue // test framework chatter
+		}
+		var r unitResp
+		if err := json.Unmarshal(line, &r); err != nil {
+			panic(fmt.Sprintf("worker answer %q: %v", line, err))
+		}
+		return &r
+	}
+}
+
+// pool runs requests on worker processes, restarting after hangs and resuming
+// each unit behind the hang as the group rule says. A hang is believed only
+// after it has been confirmed once per key in a fresh worker with a 6 s limit;
+// an unconfirmed alarm (slow machine) is retried from the same start.
+type pool struct {
+	r           *enumx.Run
+	mu          sync.Mutex
+	mis         map[string]*mismatch
+	confirmed   map[string]bool
+	probes      int64
+	selfChecks  int64
+	skipped     int64
+	hangs       int64
+	restarts    int64
+	falseAlarms int64
+}
+
+func (pl *pool) run(reqs []unitReq) (done int) {
+	var next atomic.Int64
+	var completed atomic.Int64
+	var wg sync.WaitGroup
+	n := runtime.NumCPU()
+	if n > len(reqs) {
+		n = len(reqs)
+	}
+	for s := 0; s < n; s++ {
+		wg.Add(1)
+		go func() {
+			defer wg.Done()
+			w := startWorker()
+			defer func() { w.stop() }()
+			for {
+				i := int(next.Add(1) - 1)
+				if i >= len(reqs) || pl.r.Expired() {
+					return
+				}
+				q := reqs[i]
+				for {
+					resp := w.do(&q)
+					confirmedHang := false
+					if resp.Hung {
+						w.stop()
+						w = startWorker()
+						pl.mu.Lock()
+						confirmedHang = pl.confirmed[resp.HungCase.Key]
+						pl.restarts++
+						pl.mu.Unlock()
+						if !confirmedHang {
+							c := resp.HungCase.C
+							cq := unitReq{Zone: c.Zone, Spec: c.Spec, Kind: "single", Unix: c.Unix, Nanos: c.Nanos, LimitMs: 6000}
+							cr := w.do(&cq)
+							if cr.Hung {
+								w.stop()
+								w = startWorker()
+								confirmedHang = true
+								pl.mu.Lock()
+								pl.confirmed[resp.HungCase.Key] = true
+								pl.mu.Unlock()
+							}
+						}
+					}
+					pl.mu.Lock()
+					for _, m := range resp.Mis {
+						merge(pl.mis, m)
+					}
+					pl.probes += resp.Probes
+					pl.selfChecks += resp.SelfChecks
+					switch {
+					case confirmedHang:
+						merge(pl.mis, resp.HungCase)
+						pl.skipped += resp.Skipped
+						pl.hangs++
+						resp.N++
+						resp.NT++
+					case resp.Hung:
+						pl.falseAlarms++ // slow machine, not a hang: try again from the same start
+					}
+					pl.mu.Unlock()
+					pl.r.Count(resp.N, resp.NT)
+					if !resp.Hung {
+						break
+					}
+					if confirmedHang {
+						q.FromG, q.FromI = resp.NextG, resp.NextI
+					} else {
+						q.FromG, q.FromI = resp.CurG, resp.CurI
+					}
+				}
+				completed.Add(1)
+			}
+		}()
+	}
+	wg.Wait()
+	return int(completed.Load())
 }
 
 // ---- the part -----------------------------------------------------------------
@@ -338,36 +774,34 @@ func run(r *enumx.Run, replay *enumx.ReplayCase) {
 		if err := json.Unmarshal(replay.Case, &c); err != nil {
 			panic(err)
 		}
+		w := startWorker()
+		q := unitReq{Zone: c.Zone, Spec: c.Spec, Kind: "single", Unix: c.Unix, Nanos: c.Nanos, LimitMs: 5000}
 		if strings.HasPrefix(c.Spec, "@every ") {
-			if m := evalEvery(strings.TrimPrefix(c.Spec, "@every "), time.Unix(c.Unix, int64(c.Nanos)).UTC()); m != nil {
-				r.Violation(m.key, m.msg, m.c)
-			}
-			return
+			q.Kind, q.Spec = "every", strings.TrimPrefix(c.Spec, "@every ")
 		}
-		zi, err := loadZone(c.Zone)
-		if err != nil {
-			panic(err)
+		resp := w.do(&q)
+		w.stop()
+		for _, m := range resp.Mis {
+			r.Violation(m.Key, m.Msg, m.C)
 		}
-		p, err := newPair(zi, c.Spec)
-		if err != nil {
-			panic(err)
-		}
-		if m, _ := p.eval(time.Unix(c.Unix, int64(c.Nanos)).UTC(), true); m != nil {
-			r.Violation(m.key, m.msg, m.c)
+		if resp.Hung {
+			r.Violation(resp.HungCase.Key, resp.HungCase.Msg, resp.HungCase.C)
 		}
 		return
 	}
 
 	wide, window := wideQuick, windowQuick
-	gridEvery := 4
+	gridMod := 4
+	rareMod := 16
 	if r.Thorough() {
 		wide, window = wideThorough, windowThorough
-		gridEvery = 1
+		gridMod = 2
+		rareMod = 8
 	}
 	if !subset(wideQuick, wideThorough) || !subset(windowQuick, windowThorough) || !subset(windowThorough, wideThorough) {
 		panic("menu inclusion broken: quick must explore a subset of thorough")
 	}
-	r.Rule("next: each case is one (schedule, zone, start instant) triple: kit's Next(t) against the reference scan of absolute time. Schedules: full product of a term menu per field. Start instants per zone: a regular grid 2005-2030 (step 97d5h43m17.25s) for the wide menu, and for the window menu every 7 minutes from -50h to +4h around every UTC-offset change of the zone in 2005-2024 (alternating whole-second and half-second starts, plus the instant itself and one second before). Also @every durations x starts (closed form) and rarely/never matching schedules for the five-year horizon. A case is non-trivial when the answer is not simply the next second.")
+	r.Rule("next: each case is one (schedule, zone, start instant) triple: kit's Next(t) against the reference scan of absolute time. Schedules: full product of a term menu per field. Start instants per zone: a regular grid 2005-2030 (step 97d5h43m17.25s) for the wide menu, and for the window menu every 7 minutes from -50h to +4h around every UTC-offset change of the zone in 2005-2024 (alternating whole-second and half-second starts, plus the instant itself and one second before). Also @every durations x starts (closed form) and rarely/never matching schedules for the five-year horizon. A case is non-trivial when the answer is not simply the next second. A call of Next that does not return within 2 s (confirmed once per key with 6 s) is a violation; the remaining starts of that window before the transition (then: of that window) are not tried for that schedule and are counted as skipped.")
 
 	// zones
 	zis := make([]*zoneInfo, len(zoneNames))
@@ -380,11 +814,11 @@ func run(r *enumx.Run, replay *enumx.ReplayCase) {
 		if errs[i] != nil || zi == nil {
 			panic(fmt.Sprintf("zone %s: %v", zoneNames[i], errs[i]))
 		}
-		inWin := []string{}
+		nIn := 0
 		for _, tr := range zi.z.Transitions {
 			if tr >= windowsFrom && tr < windowsTo {
 				fmt.Fprintf(fp, "%s %d %d\n", zi.name, tr, offsetAt(zi.z.Loc, tr))
-				inWin = append(inWin, time.Unix(tr, 0).UTC().Format(time.RFC3339))
+				nIn++
 			}
 		}
 		un := []string{}
@@ -392,158 +826,117 @@ func run(r *enumx.Run, replay *enumx.ReplayCase) {
 			un = append(un, time.Unix(u, 0).UTC().Format(time.RFC3339))
 		}
 		all15 = all15 && zi.z.AllOffsets15m
-		zoneFacts[zi.name] = map[string]any{"offset_changes_2005_2024": len(inWin), "offset_changes_in_scanned_era": len(zi.z.Transitions), "offsets_s": zi.z.Offsets, "all_offsets_multiple_of_15m": zi.z.AllOffsets15m, "changes_not_on_a_utc_quarter_hour_(scan_falls_back_to_minutes_there)": un, "window_starts": len(zi.wins)}
+		zoneFacts[zi.name] = map[string]any{"offset_changes_2005_2024": nIn, "offset_changes_in_scanned_era": len(zi.z.Transitions), "offsets_s": zi.z.Offsets, "all_offsets_multiple_of_15m": zi.z.AllOffsets15m, "changes_not_on_a_utc_quarter_hour": un, "window_starts": zi.nWin}
 	}
 	r.Set("zones", zoneFacts)
 	r.Set("all_zone_offsets_multiple_of_15m", all15)
 	r.Set("tz_transitions_fingerprint_2005_2024", fmt.Sprintf("%x", fp.Sum(nil))[:16])
 
-	ag := &agg{m: map[string]*aggEntry{}}
-	var probes, selfChecks atomic.Int64
-
-	// one unit = (zone, schedule): starts ascending, one continuing reference scan.
-	unit := func(zi *zoneInfo, spec string, starts []time.Time) {
-		p, err := newPair(zi, spec)
-		if err != nil {
-			panic(err)
-		}
-		var n, nt int64
-		for i, t := range starts {
-			m, nontriv := p.eval(t, false)
-			n++
-			if nontriv {
-				nt++
-			}
-			if m != nil {
-				ag.add(m)
-			}
-			if i%499 == 0 {
-				// machinery self-check: the continuing scan equals the memory-less one
-				q := &pair{zi: p.zi, spec: p.spec, kit: p.kit, ref: p.ref}
-				m2, _ := q.eval(t, true)
-				if (m == nil) != (m2 == nil) || (m != nil && m.msg != m2.msg) {
-					panic(fmt.Sprintf("reference self-check failed for %q in %s at %v", spec, zi.name, t))
-				}
-				selfChecks.Add(1)
+	pl := &pool{r: r, mis: map[string]*mismatch{}, confirmed: map[string]bool{}}
+	gridN := func(mod, rem int) int {
+		n := 0
+		for i := range zis[0].grid {
+			if i%mod == rem {
+				n++
 			}
 		}
-		probes.Add(p.sc.Probes)
-		r.Count(n, nt)
+		return n
 	}
-
-	// A. wide menu x zones x grid
-	{
-		nS := wide.size()
-		total := nS * len(zis)
-		done := r.Parallel(total, func(i int) {
-			zi := zis[i%len(zis)]
-			var starts []time.Time
-			for g, t := range zi.grid {
-				if g%gridEvery == 0 {
-					starts = append(starts, t)
-				}
-			}
-			unit(zi, wide.spec(i/len(zis)), starts)
-		})
-		desc := fmt.Sprintf("wide menu (%d schedules: %v) x %d zones x regular grid (%d instants)", nS, wide, len(zis), (len(zis[0].grid)+gridEvery-1)/gridEvery)
-		if done < total {
-			r.Incomplete(fmt.Sprintf("%s: %d of %d (schedule, zone) units", desc, done, total))
+	phase := func(desc string, reqs []unitReq) {
+		done := pl.run(reqs)
+		if done < len(reqs) {
+			r.Incomplete(fmt.Sprintf("%s: %d of %d (schedule, zone) units", desc, done, len(reqs)))
 		} else {
 			r.Space(desc)
 		}
 	}
 
-	// B. window menu x zones x transition windows
+	// A. window menu x zones x transition windows (the dense part, first)
 	{
-		nS := window.size()
-		var withWins []*zoneInfo
-		nStarts := 0
+		var reqs []unitReq
+		nStarts, nZ := 0, 0
 		for _, zi := range zis {
 			if len(zi.wins) > 0 {
-				withWins = append(withWins, zi)
-				nStarts += len(zi.wins)
+				nZ++
+				nStarts += zi.nWin
 			}
 		}
-		total := nS * len(withWins)
-		done := r.Parallel(total, func(i int) {
-			zi := withWins[i%len(withWins)]
-			unit(zi, window.spec(i/len(withWins)), zi.wins)
-		})
-		desc := fmt.Sprintf("window menu (%d schedules: %v) x %d zones with offset changes x all window starts (%d per schedule)", nS, window, len(withWins), nStarts)
-		if done < total {
-			r.Incomplete(fmt.Sprintf("%s: %d of %d (schedule, zone) units", desc, done, total))
-		} else {
-			r.Space(desc)
+		for s := 0; s < window.size(); s++ {
+			for _, zi := range zis {
+				if len(zi.wins) > 0 {
+					reqs = append(reqs, unitReq{ID: len(reqs), Zone: zi.name, Spec: window.spec(s), Kind: "win"})
+				}
+			}
 		}
+		phase(fmt.Sprintf("window menu (%d schedules: %v) x %d zones with offset changes x all window starts (%d per schedule)", window.size(), window, nZ, nStarts), reqs)
 	}
-
+	// B. wide menu x zones x grid
+	{
+		var reqs []unitReq
+		for s := 0; s < wide.size(); s++ {
+			for _, zi := range zis {
+				reqs = append(reqs, unitReq{ID: len(reqs), Zone: zi.name, Spec: wide.spec(s), Kind: "grid", Mod: gridMod, Rem: 0})
+			}
+		}
+		phase(fmt.Sprintf("wide menu (%d schedules: %v) x %d zones x regular grid (%d instants)", wide.size(), wide, len(zis), gridN(gridMod, 0)), reqs)
+	}
 	// C. five-year horizon: schedules that match rarely or never
 	{
-		rare := []string{"0 0 0 30 2 *", "0 0 0 31 2,4,6,9,11 ?", "0 0 0 29 2 *", "0 0 12 29 2 0", "* * * 31 4 *", "0 0 0 29 2 6"}
-		every := 16
-		if r.Thorough() {
-			every = 8
-		}
-		total := len(rare) * len(zis)
-		done := r.Parallel(total, func(i int) {
-			zi := zis[i%len(zis)]
-			var starts []time.Time
-			for g, t := range zi.grid {
-				if g%every == 3 {
-					starts = append(starts, t)
-				}
+		var reqs []unitReq
+		for _, s := range rareSchedules {
+			for _, zi := range zis {
+				reqs = append(reqs, unitReq{ID: len(reqs), Zone: zi.name, Spec: s, Kind: "grid", Mod: rareMod, Rem: 4})
 			}
-			unit(zi, rare[i/len(zis)], starts)
-		})
-		desc := fmt.Sprintf("horizon: %d rarely/never matching schedules %v x %d zones x every %dth grid instant", len(rare), rare, len(zis), every)
-		if done < total {
-			r.Incomplete(desc)
-		} else {
-			r.Space(desc)
 		}
+		phase(fmt.Sprintf("horizon: %d rarely/never matching schedules %v x %d zones x %d grid instants", len(rareSchedules), rareSchedules, len(zis), gridN(rareMod, 4)), reqs)
 	}
-
 	// D. @every
 	{
-		durs := []string{"1s", "2s", "59s", "1m", "90m", "1h30m10s", "24h", "8760h", "1.5s", "2h45m30.9s", "999ms", "500ms", "1ns", "0s", "-5s"}
-		var n int64
-		for _, d := range durs {
-			for _, zi := range zis {
-				for g, t := range zi.grid {
-					if g%gridEvery != 0 {
-						continue
-					}
-					for _, ns := range []int{0, 1, 499999999, 999999999} {
-						tt := t.Truncate(time.Second).Add(time.Duration(ns)).In(zi.z.Loc)
-						n++
-						if m := evalEvery(d, tt); m != nil {
-							ag.add(m)
-						}
-					}
-				}
-			}
+		var reqs []unitReq
+		for _, zi := range zis {
+			reqs = append(reqs, unitReq{ID: len(reqs), Zone: zi.name, Kind: "every", Mod: gridMod, Rem: 0})
 		}
-		r.Count(n, n)
-		r.Space(fmt.Sprintf("@every: %d durations x zones (location of t) x grid x 4 sub-second offsets, closed form", len(durs)))
+		phase(fmt.Sprintf("@every: %d durations %v x %d zones (location of t) x %d grid instants x 4 sub-second offsets, closed form", len(everyDurations), everyDurations, len(zis), gridN(gridMod, 0)), reqs)
 	}
 
-	r.Set("reference_instants_probed", probes.Load())
-	r.Set("reference_self_checks", selfChecks.Load())
+	r.Set("reference_instants_probed", pl.probes)
+	r.Set("reference_fast_vs_plain_self_checks", pl.selfChecks)
+	r.Set("calls_that_did_not_return", pl.hangs)
+	r.Set("starts_not_tried_after_a_call_that_did_not_return", pl.skipped)
+	r.Set("worker_restarts", pl.restarts)
+	r.Set("time_limit_alarms_not_confirmed_(retried)", pl.falseAlarms)
 	r.Sample(map[string]any{"zone": "America/New_York", "spec": "0 30 2 * * *", "start": "2012-03-11T05:00:00Z", "reference": "2012-03-12T02:30:00-04:00 (02:30 does not occur on the spring-forward day)"})
 	r.Sample(map[string]any{"zone": "Australia/Lord_Howe", "spec": "0 45 1 * * *", "start": "window around a 30-minute shift", "reference": "first of the two 01:45 readings on the fall-back day"})
 
-	keys := make([]string, 0, len(ag.m))
-	for k := range ag.m {
+	keys := make([]string, 0, len(pl.mis))
+	for k := range pl.mis {
 		keys = append(keys, k)
 	}
 	sort.Strings(keys)
 	classes := map[string]int{}
 	for _, k := range keys {
-		e := ag.m[k]
-		r.Violation(k, fmt.Sprintf("%s  [%d cases with this key; first by (spec, start) shown]", e.ex.msg, e.n), e.ex.c)
-		classes[classify(k, zis)]++
+		e := pl.mis[k]
+		extra := fmt.Sprintf("[%d cases with this key; first by (spec, start) shown", e.N)
+		if e.Hung > 0 {
+			extra += fmt.Sprintf("; in %d of them Next did not return", e.Hung)
+		}
+		r.Violation(k, e.Msg+"  "+extra+"]", e.C)
+		classes[strings.SplitN(classify(k, zis), ":", 2)[0]]++
 	}
 	r.Set("finding_keys_by_class", classes)
+	if os.Getenv("VERIF_C04_KEYS") != "" {
+		// development aid: dump "known:" candidate lines
+		var sb strings.Builder
+		for _, k := range keys {
+			e := pl.mis[k]
+			fmt.Fprintf(&sb, "known: property=C04 key=%s :: %s; %s [%d cases", k, classify(k, zis), e.Msg, e.N)
+			if e.Hung > 0 {
+				fmt.Fprintf(&sb, ", %d without return", e.Hung)
+			}
+			sb.WriteString("]\n")
+		}
+		os.WriteFile(os.Getenv("VERIF_C04_KEYS"), []byte(sb.String()), 0o644)
+	}
 }
 
 func offsetAt(loc *time.Location, u int64) int {
@@ -553,6 +946,9 @@ func offsetAt(loc *time.Location, u int64) int {
 
 // classify a finding key by the kind of transition it sits at (for the notes).
 func classify(key string, zis []*zoneInfo) string {
+	if strings.HasPrefix(key, "every;") {
+		return "@every"
+	}
 	if !strings.Contains(key, ";transition=") {
 		return "no-transition"
 	}
@@ -569,34 +965,22 @@ func classify(key string, zis []*zoneInfo) string {
 		u := tr.Unix()
 		before, after := offsetAt(zi.z.Loc, u-1), offsetAt(zi.z.Loc, u)
 		shift := after - before
-		localBefore := time.Unix(u, 0).In(time.FixedZone("", before))
-		whole := shift%3600 == 0 && localBefore.Minute() == 0 && localBefore.Second() == 0
+		lb := time.Unix(u, 0).In(time.FixedZone("", before)) // wall clock reading at which the change happens
+		whole := shift%3600 == 0 && lb.Minute() == 0 && lb.Second() == 0
+		desc := fmt.Sprintf("%s local %+dm", lb.Format("Mon 15:04"), shift/60)
 		switch {
+		case shift >= 86400 || shift <= -86400:
+			return "(iv) whole local day skipped/repeated: " + desc
 		case !whole:
-			return "(i) shift or local instant not a whole hour"
+			return "(i) shift or local instant not a whole hour: " + desc
 		case shift > 0:
-			// gap [localBefore, localBefore+shift)
-			if localBefore.Hour() == 0 || localBefore.Add(time.Duration(shift)*time.Second).Day() != localBefore.Day() {
-				return "(ii) gap swallowing local midnight"
+			if lb.Hour() == 0 || lb.Add(time.Duration(shift)*time.Second).Day() != lb.Day() {
+				return "(ii) gap swallowing local midnight: " + desc
 			}
-			return "gap, whole hour, not at midnight"
+			return "(v) whole-hour gap not at midnight: " + desc
 		default:
-			return "(iii) overlap (wall time repeated)"
+			return "(iii) overlap (wall time repeated): " + desc
 		}
 	}
 	return "?"
-}
-
-func evalEvery(d string, t time.Time) *mismatch {
-	k, err := secondsParser.Parse("@every " + d)
-	if err != nil {
-		return &mismatch{key: "every;d=" + d, msg: fmt.Sprintf("@every %s refused: %v", d, err), c: rcase{"", "@every " + d, t.Unix(), t.Nanosecond()}}
-	}
-	dur, _ := time.ParseDuration(d)
-	want := cronref.EveryNext(cronref.EveryDelay(dur), t)
-	got := k.Next(t)
-	if got.Equal(want) {
-		return nil
-	}
-	return &mismatch{key: "every;d=" + d, msg: fmt.Sprintf("@every %s: Next(%s) = %s, documented: t truncated to the second + %v = %s", d, t.Format(time.RFC3339Nano), got.Format(time.RFC3339Nano), cronref.EveryDelay(dur), want.Format(time.RFC3339Nano)), c: rcase{"", "@every " + d, t.Unix(), t.Nanosecond()}}
 }
